@@ -55,6 +55,9 @@ def specs_for(n, levels):
         out.append({"kind": "poly", "scores": [i * i + 1 for i in range(n)]})
         out.append({"kind": "poly", "scores": [0.5 * i + (0.25 if i % 2 else 0) for i in range(n)]})
         out.append({"kind": "poly", "scores": [-3 + 2 * i for i in range(n)]})
+        # scores that are not in ascending order
+        out.append({"kind": "poly", "scores": [float(n - i) for i in range(n)]})
+        out.append({"kind": "poly", "scores": [((i * 3) % n) + 0.25 * i for i in range(n)]})
     return out
 
 
@@ -227,6 +230,12 @@ def check_encode(case) -> Outcome:
     expected = I @ RC.coding(spec, nl, used) if reduced else I
     exp_names = RC.column_names(spec, used) if reduced else list(used)
     series = pandas.Series(data, dtype=object)
+    if case.get("as_cat") is not None and levels_arg is not None and len(used) >= 2:
+        # the data arrive dictionary-encoded, with the same categories declared in another order (plus anything else observed)
+        k_ = 1 + case["as_cat"] % (len(used) - 1)
+        cats = list(used[k_:]) + list(used[:k_]) + sorted({v for v in data if v is not None and v not in used}, key=str)
+        series = pandas.Series(pandas.Categorical(data, categories=cats))
+        out.label("categorical-input-other-order")
     with warnings.catch_warnings(record=True) as w:
         warnings.simplefilter("always")
         enc = encode_contrasts(series, c, levels=levels_arg, reduced_rank=reduced, output=output)
@@ -302,6 +311,8 @@ def gen_encode(nmax):
         if kind == "poly" and draw(st.booleans()):
             sc = draw(st.lists(st.integers(1, 5), min_size=n, max_size=n))
             spec["scores"] = [sum(sc[: i + 1]) for i in range(n)]
+            if draw(st.booleans()):
+                spec["scores"] = list(draw(st.permutations(spec["scores"])))  # distinct, any order
         clean = draw(st.booleans())  # no nulls / out-of-level values: the formula interface is exercised too
         el = st.integers(0, n - 1) if clean else st.one_of(st.integers(0, n - 1), st.integers(0, n - 1), st.integers(0, n), st.none())
         data = draw(st.lists(el, min_size=1, max_size=12))
@@ -312,6 +323,7 @@ def gen_encode(nmax):
             "spec": spec, "labels": lk, "n": n, "data": data, "levels": None if lev is None else list(lev),
             "reduced": draw(st.booleans()), "output": draw(st.sampled_from(["pandas", "numpy", "sparse"])),
             "spelling": draw(st.sampled_from([0, 0, 1, 2])),
+            "as_cat": draw(st.one_of(st.none(), st.none(), st.integers(0, 6))),
         }
 
     return strat()
